@@ -733,7 +733,7 @@ async fn child_drive(spec: &ChildSpec) -> ChildObs {
             obs.errors.push(format!("POST /tasks ({mode}) gave {st} and no task id"));
         } else {
             let mut done = false;
-            for _ in 0..24000 {
+            for _ in 0..6000 {
                 let (_, b) = call(&app, &mut raw, &mut obs, "GET", &format!("/tasks/{tid}"), None).await;
                 obs.bodies.pop();
                 obs.statuses.pop();
@@ -742,7 +742,7 @@ async fn child_drive(spec: &ChildSpec) -> ChildObs {
                     done = true;
                     break;
                 }
-                tokio::time::sleep(Duration::from_millis(10)).await;
+                tokio::time::sleep(Duration::from_millis(50)).await;
             }
             if !done {
                 obs.errors.push(format!("task {tid} ({mode}) did not finish"));
@@ -1731,9 +1731,9 @@ fn gen_toolenv(rng: &mut Rng, j: u64) -> Scenario {
         2 => {
             sc.thread = true;
             sc.env.push(("MY_PROVIDER_KEY".into(), key));
-            sc.env.push(("RIP_TASKS_ALLOW_PTY".into(), "1".into()));
             sc.layers.push(Layer { slot, providers: vec![ProvSpec { id: "acme".into(), endpoint: Some("{{P}}/v1/responses".into()), api_key: Some(KeySpec::Env("MY_PROVIDER_KEY".into())), ..Default::default() }], primary: Some("acme/fixture-model".into()), ..Default::default() });
-            sc.task_env_dump = Some("pty".into());
+            // (the pty spawn site has the same three lines; pty tasks do not terminate in this sandbox, so only pipes run)
+            sc.task_env_dump = Some("pipes".into());
         }
         3 => {
             // the referenced variable is not used by this run (session path = start-up env configuration, no key at all)
@@ -1908,9 +1908,10 @@ fn check_pair(a: &RunOut, b: &RunOut, cores: [&str; 6], sc: &Scenario) -> PairRe
             ));
         }
     }
-    // B1 (KNOWN_FINDINGS): the scripted provider asked the shell tool to print the key variable.  When every
-    // persisted frame that holds a canary is a tool-output frame (tool_stdout / tool_stderr / tool_ended / ..) the
-    // leak is exactly "tool output shows the inherited environment"; anything else keeps its generic class.
+    // B1 (KNOWN_FINDINGS, fixed in /repo bca1684: a regression now): the scripted provider asked the shell tool to print
+    // the key variable and its whole environment.  When every persisted session frame that holds a canary is a tool-output
+    // frame (tool_stdout / tool_stderr / tool_ended / ..) the leak is exactly "tool output shows the inherited
+    // environment"; anything else keeps its generic class.
     if sc.outcome == 8 {
         let tool_only = |r: &RunOut, cs: [&str; 2]| -> Option<bool> {
             let mut any = false;
@@ -1931,7 +1932,7 @@ fn check_pair(a: &RunOut, b: &RunOut, cores: [&str; 6], sc: &Scenario) -> PairRe
             if let Some((_, first)) = leaks.first() {
                 rep.violations.push((
                     "secret_in_tool_output_via_inherited_env".into(),
-                    format!("the shell tool inherits the authority's environment: a provider-requested `printenv RIP_OPENRESPONSES_API_KEY` shows the env-supplied key in tool-output frames only ({} sink hits, e.g. {})", leaks.len(), first.chars().take(300).collect::<String>()),
+                    format!("tool subprocesses inherit the authority's credential variables again: a provider-requested `printenv RIP_OPENRESPONSES_API_KEY; env` (or a background task running `env`) shows the env-supplied key in tool output ({} sink hits, e.g. {})", leaks.len(), first.chars().take(300).collect::<String>()),
                 ));
             }
         }
